@@ -52,7 +52,25 @@ def gen_sscript(rng, faulty):
 
 def bad_frame(rng):
     import struct
-    kind = rng.choice(['neg', 'neg_small', 'garbage', 'flip_len'])
+    kind = rng.choice(['neg', 'neg_small', 'garbage', 'flip_len', 'badpickle', 'badpickle'])
+    if kind == 'badpickle':
+        # a well-formed zlib stream whose content is not a well-formed pickle: the pure-Python unpickler reports these
+        # as EOFError, KeyError, IndexError, struct.error, AttributeError, ModuleNotFoundError, UnpicklingError, ValueError...
+        import struct
+        good = F._pickle.dumps({'k': [1, 2, 3], 's': 'x' * rng.randrange(0, 20), 't': (1.5, None)}, 2)
+        while True:
+            data = rng.choice([
+                b'', good[:rng.randrange(1, len(good))], good[:-1], good[1:],
+                bytes(rng.choice(b'0123456789.()]}IKMNQRSTUVXabdehijlopqrstu\x80\x02') for _ in range(rng.randrange(1, 12))),
+                b'cno_such_module_xyz\nFoo\n.', b'cos\nno_such_attr_xyz\n.', b'(.', b'0.', b'\x80\x02]q\x00h\x05.', b'I1\n',
+                b'\x80\x02K\x01K\x02\x86', b'\x80\x05\x95\xff\xff\xff\xff\xff\xff\xff\x7f.', b'h\x00.', b'j\xff\xff\xff\x7f.',
+                b'\x80\x02}q\x00(K\x01', b'R.', b'\x81.', b't.', b'e.', b'u.', b's.',
+            ])
+            try:
+                F._pickle.loads(data)
+            except Exception:
+                z = zlib.compress(data, 3)
+                return kind, struct.pack('i', len(z)) + z
     if kind == 'neg':
         k = rng.randrange(0, 40)
         return kind, struct.pack('i', -(4 + k)) + bytes(rng.randrange(256) for _ in range(rng.randrange(0, 60)))
@@ -432,7 +450,8 @@ def run_cases(ctx, seeds, label):
     nproc = 16
     chunks = [seeds[i::nproc] for i in range(nproc) if seeds[i::nproc]]
     with mp.get_context('fork').Pool(len(chunks)) as pool:
-        results = [r for part in pool.map(_case_worker, chunks) for r in part]
+        from vlib import cov
+        results = [r for part in cov.pmap(ctx, pool, _case_worker, chunks) for r in part]
     results.sort(key=lambda r: r['seed'])
     good = [r for r in results if 'crash' not in r]
     per_file = 60
